@@ -29,6 +29,8 @@ type FuncResult struct {
 	GenSecs   float64
 }
 
+var overlayFiles = map[string]string{}
+
 type Loaded struct {
 	prog *ssa.Program
 	pkgs map[string]*ssa.Package
@@ -248,6 +250,7 @@ func cmdCheck(args []string) int {
 	only := fs.String("func", "", "restrict to one function key suffix (debug)")
 	verbose := fs.Bool("v", false, "verbose")
 	noEvidence := fs.Bool("no-evidence", false, "do not write evidence (selftest)")
+	overlay := fs.String("overlay", "", "comma separated orig=replacement source files (selftest mutants)")
 	fs.Parse(args)
 	if *tier == "" {
 		*tier = "quick"
@@ -281,7 +284,21 @@ func cmdCheck(args []string) int {
 		fmt.Printf("ERROR no contracts carry property %s\n", *prop)
 		return 2
 	}
-	l, err := loadPackages(*repo, sortedKeysB(pkgset), nil)
+	var ov map[string][]byte
+	if *overlay != "" {
+		ov = map[string][]byte{}
+		for _, kv := range strings.Split(*overlay, ",") {
+			parts := strings.SplitN(kv, "=", 2)
+			data, err := os.ReadFile(parts[1])
+			if err != nil {
+				fmt.Println("ERROR overlay:", err)
+				return 2
+			}
+			ov[parts[0]] = data
+			overlayFiles[parts[0]] = parts[1]
+		}
+	}
+	l, err := loadPackages(*repo, sortedKeysB(pkgset), ov)
 	if err != nil {
 		// the tree does not type-check: nothing can be decided
 		fmt.Println("ERROR load:", err)
